@@ -48,7 +48,7 @@ impl<'a> MinimiserGenerator<'a> {
             m_val_l: 0,
             m_window_end: 0,
             m_window_start: 0,
-            buff: VecDeque::with_capacity(wsize - msize + 1),
+            buff: VecDeque::with_capacity((wsize - msize + 1).min(seq.len())),
             m_shift: 2 * (msize - 1) as u64,
         }
     }
